@@ -42,6 +42,7 @@ def run(ctx):
     chk.rule("R13.1", "operator match predicate = available AND equal AND (binary OR at_end OR NOT identifier-continued)")
     chk.rule("R13.2", "operator list sorted by name descending before a first-match search")
     chk.rule("R13.3", "is_operator_binary: both roles -> binary iff left in {Num, Var, ')'}; binary-only -> Err after Op else binary; otherwise unary")
+    chk.rule("R13.5", "a variable token is named by exactly the matched identifier, resp. exactly the text between the braces")
     chk.rule("R13.4", "exact-match look-ahead regex = variable-name regex + '$', both anchored at the start")
 
     # ---------------- R13.3 ------------------------------------------------------
@@ -252,3 +253,22 @@ def run(ctx):
             chk.ok("R13.4", "look-ahead regex is the variable regex anchored at the end", "%r / %r" % (n, e), pats["EXACT"][1])
         else:
             chk.violation("R13.4", "regex-relation", "look-ahead regex %r is not the variable regex %r anchored at both ends: identifiers and operator names would be delimited differently" % (e, n), pats["EXACT"][1])
+
+    # ---- R13.5 variable names are taken verbatim
+    from analysis import dom as _dom
+    org = _dom.Origins(tk)
+    nvar = 0
+    for bi, si, st in mir.iter_stmts(tk, mir.normal_blocks(tk)):
+        if st["k"] == "assign" and st["rv"]["k"] == "aggregate" and st["rv"].get("variant") == "Var" and (st["rv"].get("adt") or "").endswith("ParsedToken"):
+            term = org.op_term(st["rv"]["ops"][0])
+            nvar += 1
+            REST = r"std::ops::Index::index\(param:\w+, std::ops::RangeFrom::RangeFrom\{var:\w+\}\)"
+            bare = re.match(r"^regex::Match::<'h>::as_str\(\(regex::Regex::find\(.*RE_VAR_NAME\}?\)?, %s\) as Some\)\.0\)$" % REST, term)
+            brace = re.match(r"^std::ops::Index::index\(%s, std::ops::Range::Range\{1_usize, std::iter::Iterator::sum\(std::iter::Iterator::map\(std::iter::Iterator::take_while\(core::str::<impl str>::chars\(%s\), .*\)\)\}\)$" % (REST, REST), term)
+            if bare:
+                chk.ok("R13.5", "bare variable = the regex match", "", loc(st["span"]))
+            elif brace:
+                chk.ok("R13.5", "braced variable = text between the braces", "", loc(st["span"]))
+            else:
+                chk.violation("R13.5", "var-name:%d" % nvar, "a variable token is not named by exactly the matched text: %s" % term[:200], loc(st["span"]))
+    chk.floor("R13.5", "variable token sites", nvar, 2)
